@@ -12,4 +12,4 @@ ASSUMPTIONS = ['values: Python == coincides with structural equality (generators
                'key order of the result is not modelled (compared as unordered maps)',
                'the random stream excludes trailing-singleton shapes (X,Y,Z,1)/(X,Y,Z,T,1), where the real code raises KeyError '
                '(open known finding N2, signature subset/trailing-singleton/KeyError; covered by corpus/C04)']
-PARTS = [extlib.SubsetPart]
+PARTS = [extlib.SubsetPart, extlib.SplitPart]
